@@ -97,7 +97,7 @@ def gen_wait_consts():
 # stream: one wait_until call per case, timed histories around it, cancellation at chosen instants
 # ------------------------------------------------------------------------------------------------
 SWITCHES = [("d_timeout0_falsy", "D18"), ("d_leak_legacy", "D19"), ("d_leak_dm", "D150"), ("d_now_restarts", "D151"),
-            ("d_badexpr_leak", "D152"), ("d_none_eager", "D153")]
+            ("d_badexpr_leak", "D152"), ("d_none_eager", "D153"), ("d_hold_latest", "D154"), ("d_hold_attr_cancels", "D155")]
 OFFS = [250, 1250, 2250, 3250, 5250, -1000, -2750]
 TIMEOUTS = [0, 0, 500, 1500, 2500, 4500, 6500]
 HOLDS = [750, 1750, 2750]
@@ -141,7 +141,7 @@ def _rand_case(rng):
         badexpr = rng.choice(["mqtt", "webhook"])
     kinds = ["U", "O"]
     if st is not None:
-        kinds += ["T"] * 5 + ["F"] * 5 + (["I"] * 3 if st["hold"] is None else []) + ["X"]
+        kinds += ["T"] * 5 + ["F"] * 5 + ["I"] * 3 + ["X"]
     else:
         kinds += ["T", "F"]
     if ev is not None:
@@ -155,26 +155,18 @@ def _rand_case(rng):
             break
         pre.append([t, rng.choice(kinds)])
         t += 1000 * rng.choice([0, 1, 1, 2])
-    # truth of the expression at the call, and whether a hold period is pending (for the alternation rule)
-    truth = st["init"] if st else "F"
-    for _t, k in pre:
-        if k in "TFX":
-            truth = k
-    pending = bool(st) and st["hold"] is not None and _cn_eff(st) and truth == "T"
     hist = []
     t = 0
+    hold = st is not None and st["hold"] is not None
     for _ in range(rng.choice([0, 1, 2, 3, 4, 5, 6, 8])):
-        t += 1000 * rng.choice([1, 1, 1, 2, 2, 3])
+        # whole seconds, or (state_hold cases) 400/600 ms after one: several changes inside one hold period
+        if hold and rng.random() < 0.5:
+            t = (t // 1000) * 1000 + rng.choice([400, 600, 1000, 1400, 1600])
+        else:
+            t = (t // 1000) * 1000 + 1000 * rng.choice([1, 1, 1, 2, 2, 3])
         k = rng.choice(kinds)
-        if st is not None and st["hold"] is not None:
-            # state_hold cases: the expression alternates (repeated true values and attribute-only updates while a hold
-            # period runs are C05's subject: D14 / D50)
-            if k == "T" and pending:
-                k = "F"
-            if k == "T":
-                pending = True
-            elif k == "F":
-                pending = False
+        if hold and k in ("F", "X", "I") and rng.random() < 0.6:
+            k = "T"          # state_hold cases: mostly still-true changes (true, true', true'' with different values)
         hist.append([t, k])
     cancel = None
     how = "cancel"
@@ -209,8 +201,10 @@ class WaitStream(Stream):
             "unrelated events; occurrences on whole seconds, time offsets = 0.25, timeouts = 0.5, holds = 0.75 mod 1 s so no two "
             "candidates tie) and cancellation of the waiting task (task.cancel or task.unique) at 0 or any instant = 0.125 mod "
             "0.25 s; the script reports the returned dict; subscriptions, bus listeners and live pyscript tasks are compared "
-            "before the call vs at the first grid point after the task ended; both subsystems; with state_hold the expression "
-            "alternates (C05 covers the rest); non-trivial = something qualifying or a cancellation after the call; distinct by case")
+            "before the call vs at the first grid point after the task ended; both subsystems; state_hold cases also have "
+            "occurrences 0.4/0.6 s after a whole second: several still-true changes with different values, attribute-only updates "
+            "and true->false->true sequences inside one hold period, with and without timeout; non-trivial = something "
+            "qualifying or a cancellation after the call; distinct by case")
     requires = "From PV Require Import Trig.WaitUntil Trig.WaitUntilCheck."
     case_type = "wcase"
     check_model = "wcase_model_ok pv_cfg"
@@ -255,6 +249,13 @@ class WaitStream(Stream):
                 cases.append(_mk(sub, _st(None, "T", 2750), None, None, None, [], [], c))
                 cases.append(_mk(sub, None, None, None, 2500, [], [], c))
                 cases.append(_mk(sub, None, [3250], None, None, [], [], c))
+            # state_hold: still-true changes (different values), attribute-only updates, true->false->true inside a hold period
+            for to in (None, 4500, 6500):
+                for cn, init in ((False, "F"), (None, "T"), (None, "F")):
+                    cases.append(_mk(sub, _st(cn, init, 2750), None, None, to, [], [[1000, "T"], [1400, "T"], [2600, "T"]]))
+                    cases.append(_mk(sub, _st(cn, init, 2750), None, None, to, [], [[1000, "T"], [1400, "F"], [1600, "T"], [2000, "T"]]))
+                    cases.append(_mk(sub, _st(cn, init, 1750), None, {"filter": True}, to, [], [[1000, "T"], [1600, "T"], [2000, "E0"], [2400, "T"]]))
+                    cases.append(_mk(sub, _st(cn, init, 2750), None, None, to, [], [[1000, "T"], [2000, "I"], [2400, "T"]]))
             # exceptions in a condition
             cases.append(_mk(sub, _st(None, "X"), None, {"filter": True}, None, [], h_event))
             cases.append(_mk(sub, _st(None, "F"), None, {"filter": True}, 2500, [], [[1000, "X"]]))
